@@ -39,6 +39,24 @@ pub fn make_input_class(id: String, src: &Source, rng: &mut Rng, c2d_false: bool
             return None;
         }
     }
+    // a separate class: d4 files with a dead two-level and-chain above the false node
+    if !c2d_false && src.n >= 2 && rng.chance(1, 12) {
+        let x = (1 + rng.below(src.n as u64)) as i32;
+        let x = if rng.coin() { x } else { -x };
+        if let Some((lines, eff)) = emit_d4_dead_chain(&src.cnf, x, &opts) {
+            let ms = if src.n <= 16 { Some(crate::gen::models(&eff, src.n)) } else { None };
+            if ms.as_ref().map(|m| !m.is_empty()).unwrap_or(true) {
+                return Some(Input {
+                    id,
+                    n: src.n,
+                    format: "d4",
+                    lines,
+                    desc: format!("{} AND {} | d4 dead and-chain above f | {}", src.desc, -x, opts.describe()),
+                    models: ms,
+                });
+            }
+        }
+    }
     let c2d = c2d_false || rng.chance(1, 3);
     // a separate class: c2d files with n-ary or nodes (multiway decisions), small n only
     let multiway = !c2d_false && src.n >= 2 && src.n <= 6 && models.is_some() && rng.chance(1, 6);
@@ -168,7 +186,7 @@ fn wide_id_cases(ctx: &Ctx, rng: &mut Rng, out: &mut dyn Write) {
         let cnf = rename_cnf(&small, &|v| ids[(v - 1) as usize]);
         let mut order: Vec<u32> = ids.clone();
         rng.shuffle(&mut order);
-        let opts = Opts { decomp: rng.coin(), share: true, keep_false: false, neg_first: rng.coin(), interleave: true, order };
+        let opts = Opts { decomp: rng.coin(), share: true, keep_false: false, and_false: false, neg_first: rng.coin(), interleave: true, order };
         let dag = match compile(&cnf, &opts) {
             Some(d) => d,
             None => continue,
